@@ -153,14 +153,21 @@ LoopVariantsCorePlus == LoopVariantsCore \cup {Variant("OMPLoopTrans", "parallel
 RegionVariantsCorePlus == RegionVariantsCore \cup {Variant("ACCKernelsTrans", "", 0),
                                                     Variant("OMPMasterTrans", "", 0)}
 
-CONSTANTS Alphabet,     \* "full" | "core" | "core+"
+\* "acc": every ACCLoopTrans variant + the OpenACC regions (gang/vector nesting)
+LoopVariantsAcc(s) == {v \in LoopVariantsFull(s) : v.t = "ACCLoopTrans"}
+RegionVariantsAcc == {Variant(t, "", 0) : t \in {"ACCParallelTrans", "ACCKernelsTrans",
+                                                 "ACCDataTrans"}}
+
+CONSTANTS Alphabet,     \* "full" | "core" | "core+" | "acc"
           MaxLen,       \* longest history generated
           Skels         \* set of skeleton names
 LoopVariants(s) == IF Alphabet = "full" THEN LoopVariantsFull(s)
-                   ELSE IF Alphabet = "core+" THEN LoopVariantsCorePlus ELSE LoopVariantsCore
+                   ELSE IF Alphabet = "core+" THEN LoopVariantsCorePlus
+                   ELSE IF Alphabet = "acc" THEN LoopVariantsAcc(s) ELSE LoopVariantsCore
 RegionVariants  == IF Alphabet = "full" THEN RegionVariantsFull
-                   ELSE IF Alphabet = "core+" THEN RegionVariantsCorePlus ELSE RegionVariantsCore
-RoutineVariants == IF Alphabet = "full" THEN RoutineVariantsFull ELSE {}
+                   ELSE IF Alphabet = "core+" THEN RegionVariantsCorePlus
+                   ELSE IF Alphabet = "acc" THEN RegionVariantsAcc ELSE RegionVariantsCore
+RoutineVariants == IF Alphabet \in {"full", "acc"} THEN RoutineVariantsFull ELSE {}
 NodeVariants    == IF Alphabet = "full" THEN NodeVariantsFull ELSE {}
 
 Target(v, p, lo, hi) == [t |-> v.t, o |-> v.o, c |-> v.c, p |-> p, lo |-> lo, hi |-> hi]
